@@ -318,6 +318,13 @@ def cases(ctx: core.Ctx):
         for s in HAND:
             for extra in (False, True):
                 yield {"kind": "analysis", "main": s, "partials": {}, "extra": extra, "async": False}
+        # the same sources with every other line ending (and characters that only some tools take for one): an index counts characters,
+        # whatever they are
+        for sep in ("\r\n", "\r", "\n\n", "\r\n\r\n", " \r\n", "\n\r"):
+            for hi, s in enumerate(HAND):
+                v = s.replace("\n", sep)
+                yield {"kind": "analysis", "main": v, "partials": {}, "extra": bool(hi % 2), "async": False}
+                yield {"kind": "analysis", "main": "{% include 'p' %}{% render 'p' %}" + v, "partials": {"p": v}, "extra": True, "async": True}
     n = ctx.budget(2500, 300_000)
     for i in range(n):
         extra = rng.random() < 0.5
